@@ -194,14 +194,25 @@ E('''OBSERVATION: a closing curly quote inside a straight-quoted literal ends th
 
 S('5. integer literals in every radix, with separators')
 
-T('''[sign] 0x / 0b followed by digits of the radix (either case) and separators, then whitespace or
-   the end: the literal denotes the written value when it has at least one digit and fits i128,
+T('''the three radix markers: 0x (radix 16), 0b (radix 2), 0o (radix 8); lower-case letters only''',
+'C16_rmark_spec',
+'''  rmark_text RHex = "x" /\\ rmark_radix RHex = 16%N /\\
+  rmark_text RBin = "b" /\\ rmark_radix RBin = 2%N /\\
+  rmark_text ROct = "o" /\\ rmark_radix ROct = 8%N /\\
+  (forall c r, radix_mark (String c r) =
+     if (byte_of c =? 98)%N then Some 2%N else if (byte_of c =? 120)%N then Some 16%N
+     else if (byte_of c =? 111)%N then Some 8%N else None) /\\
+  radix_mark "" = None''',
+'rmark_spec')
+
+T('''[sign] 0x / 0b / 0o followed by digits of the radix (either case) and separators, then whitespace
+   or the end: the literal denotes the written value when it has at least one digit and fits i128,
    and is the error "parse int" otherwise''',
 'C16_int_literal_marked',
-'''  forall l sg (hex : bool) items rest,
-  let radix := if hex then 16%N else 2%N in
+'''  forall l sg (m : rmark) items rest,
+  let radix := rmark_radix m in
   forallb (nitem_ok radix) items = true -> next_is_ws_or_end rest = true ->
-  lrest l = sgn_text sg ++ "0" ++ (if hex then "x" else "b") ++ nitems_text items ++ rest ->
+  lrest l = sgn_text sg ++ "0" ++ rmark_text m ++ nitems_text items ++ rest ->
   let p4 := lpos l + String.length (sgn_text sg) + 2 + List.length items in
   lex_next l = (int_tok sg radix items (lpos l) p4, mklex rest p4 (lpos l) (llen l))''',
 'lex_next_int_marked')
@@ -238,7 +249,7 @@ T('''MODEL BEHAVIOUR (recorded): [sign] 0 followed by further digits, without ma
 'lex_next_int_leading_zero')
 
 T('''a numeric text without marker and without dot that contains a character which is not a digit of
-   its radix (1e5, 12abc, 0o17) is the error "parse int" over the whole text''',
+   its radix (1e5, 12abc, 09z) is the error "parse int" over the whole text''',
 'C16_int_literal_bad_digit',
 '''  forall l sg c0 a c b rest,
   is_digit c0 = true -> lrest l = sgn_text sg ++ String c0 ((a ++ String c b) ++ rest) ->
@@ -268,30 +279,44 @@ T('''every numeric text (optional sign, a digit, anything up to the next whitesp
 
 T('''... and with a radix marker''',
 'C16_numeric_text_marked',
-'''  forall l sg (hex : bool) body rest,
-  lrest l = sgn_text sg ++ "0" ++ (if hex then "x" else "b") ++ body ++ rest ->
+'''  forall l sg (m : rmark) body rest,
+  lrest l = sgn_text sg ++ "0" ++ rmark_text m ++ body ++ rest ->
   no_ws body = true -> next_is_ws_or_end rest = true ->
   let p4 := lpos l + String.length (sgn_text sg) + 2 + String.length body in
   lex_next l =
-  (numeric_tok (lpos l) p4 "0" (Some (if hex then 16%N else 2%N)) (sgn_text sg ++ strip_us body) (has_dot body),
+  (numeric_tok (lpos l) p4 "0" (Some (rmark_radix m)) (sgn_text sg ++ strip_us body) (has_dot body),
    mklex rest p4 (lpos l) (llen l))''',
 'lex_next_numeric_marked')
 
-T('''PRINT/READ in base 16 (either case) and base 2 with the radix prefix: a non-negative integer
-   reads back (negative ones are printed as two's complement and do not: C16_known_hex_negative_refuted)''',
+T('''PRINT/READ in base 2, 8 and 16 (either case) with the radix prefix, any lexer state, any continuation
+   that starts with whitespace or is empty: a non-negative integer reads back (negative ones are
+   printed as two's complement and do not: C16_known_hex_negative_refuted)''',
+'C16_print_read_int_radix_next',
+'''  forall l f z rest,
+  (fl_base f = 2 \\/ fl_base f = 8 \\/ fl_base f = 16)%Z -> fl_prefix f = true -> (0 <= z)%Z -> in_i128 z = true ->
+  next_is_ws_or_end rest = true ->
+  lrest l = fmt_int f z ++ rest ->
+  let p' := lpos l + String.length (fmt_int f z) in
+  lex_next l = (TLit (CInt z), mklex rest p' (lpos l) (llen l))''',
+'print_read_int_radix_next')
+
+T('''... and as a whole text''',
 'C16_print_read_int_radix',
 '''  forall f z,
-  (fl_base f = 16 \\/ fl_base f = 2)%Z -> fl_prefix f = true -> (0 <= z)%Z -> in_i128 z = true ->
+  (fl_base f = 2 \\/ fl_base f = 8 \\/ fl_base f = 16)%Z -> fl_prefix f = true -> (0 <= z)%Z -> in_i128 z = true ->
   let txt := fmt_int f z in
   lex_string txt = [(TLit (CInt z), 0, String.length txt); (TEnd, String.length txt, String.length txt)]''',
 'print_read_int_radix')
 
-T('''FINDING: base 8 prints the prefix 0o, which the lexer does not know - an octal print does not read back''',
-'C16_print_octal_refuted',
-'''  exists z, in_i128 z = true /\\ (0 <= z)%Z /\\
-    let txt := fmt_int (fl_set_base fmt_default 8) z in
-    txt = "0o10" /\\ lex_string txt = [(TErr PInt 0 4, 0, 4)]''',
-'print_octal_refuted')
+E('''the octal print reads back (0o was unknown to the lexer before the repair: former finding
+   C16_print_octal_refuted); the marker is lower case only, digits must be octal''',
+'C16_ex_print_octal',
+'''  fmt_int (fl_set_base fmt_default 8) 8 = "0o10" /\\
+  lex_string "0o10" = [(TLit (CInt 8), 0, 4); (TEnd, 4, 4)] /\\
+  lex_string "-0o1_7" = [(TLit (CInt (-15)), 0, 6); (TEnd, 6, 6)] /\\
+  lex_string "0O17" = [(TErr PInt 0 4, 0, 4)] /\\
+  lex_string "0o8" = [(TErr PInt 0 3, 0, 3)]''',
+'exact print_octal_reads.')
 
 T('''FINDING: printed without the prefix, a hexadecimal text reads as a different number or not at all''',
 'C16_print_noprefix_refuted',
@@ -306,7 +331,10 @@ E('''non-vacuity of the radix round trip''',
 '''  let f := fl_set_bit (fl_set_base fmt_default 16) 11 true in
   fl_base f = 16%Z /\\ fl_prefix f = true /\\ fmt_int f 48879 = "0xBEEF" /\\
   lex_string "0xBEEF" = [(TLit (CInt 48879), 0, 6); (TEnd, 6, 6)] /\\
-  fmt_int (fl_set_base fmt_default 2) 5 = "0b101"''',
+  fmt_int (fl_set_base fmt_default 2) 5 = "0b101" /\\
+  fl_base (fl_set_base fmt_default 8) = 8%Z /\\ fl_prefix (fl_set_base fmt_default 8) = true /\\
+  fmt_int (fl_set_base fmt_default 8) 511 = "0o777" /\\
+  lex_string "0o777" = [(TLit (CInt 511), 0, 5); (TEnd, 5, 5)]''',
 'vm_compute. repeat split; reflexivity.')
 
 E('''the i128 boundaries: the least value reads, one past the greatest is an error''',
@@ -322,7 +350,7 @@ E('''the i128 boundaries: the least value reads, one past the greatest is an err
   lex_string "0x8000_0000_0000_0000_0000_0000_0000_0000" = [(TErr PInt 0 41, 0, 41)]''',
 'vm_compute. repeat split; reflexivity.')
 
-E('''separators, both cases, all three signs, both markers; the instances of the general theorems''',
+E('''separators, both cases, all three signs, the three markers; the instances of the general theorems''',
 'C16_ex_int_radix',
 '''  lex_string "0xFf_fF" = [(TLit (CInt 65535), 0, 7); (TEnd, 7, 7)] /\\
   lex_string "-0b1_01" = [(TLit (CInt (-5)), 0, 7); (TEnd, 7, 7)] /\\
@@ -331,7 +359,9 @@ E('''separators, both cases, all three signs, both markers; the instances of the
   lex_string "0b12" = [(TErr PInt 0 4, 0, 4)] /\\
   lex_string "010" = [(TLit (CInt 16), 0, 3); (TEnd, 3, 3)] /\\
   lex_string "0e5" = [(TLit (CInt 229), 0, 3); (TEnd, 3, 3)] /\\
-  lex_string "0o17" = [(TErr PInt 0 4, 0, 4)] /\\
+  lex_string "0o17" = [(TLit (CInt 15), 0, 4); (TEnd, 4, 4)] /\\
+  lex_string "09z" = [(TErr PInt 0 3, 0, 3)] /\\
+  int_tok SPlus 8 [NDig false 1; NSep; NDig false 7] 0 6 = TLit (CInt 15) /\\
   lex_string "12abc" = [(TErr PInt 0 5, 0, 5)] /\\
   lex_string "0x-5" = [(TLit (CInt (-5)), 0, 4); (TEnd, 4, 4)] /\\
   int_tok SMinus 2 [NDig false 1; NSep; NDig false 0; NDig false 1] 0 7 = TLit (CInt (-5))''',
@@ -644,8 +674,8 @@ T('''a numeric text without radix marker that contains a dot is a real literal; 
 
 T('''with a radix marker a dot is the error "parse float"''',
 'C16_real_marked_error',
-'''  forall l sg (hex : bool) body rest,
-  lrest l = sgn_text sg ++ "0" ++ (if hex then "x" else "b") ++ body ++ rest ->
+'''  forall l sg (m : rmark) body rest,
+  lrest l = sgn_text sg ++ "0" ++ rmark_text m ++ body ++ rest ->
   no_ws body = true -> has_dot body = true -> next_is_ws_or_end rest = true ->
   let p4 := lpos l + String.length (sgn_text sg) + 2 + String.length body in
   lex_next l = (TErr PFloat (lpos l) p4, mklex rest p4 (lpos l) (llen l))''',
@@ -687,7 +717,7 @@ E('''end to end with a stand-in oracle that knows the text 10.5: the literal 1_0
 
 E('''the shapes: 1. and 1.5e3 and 1.2.3 are real tokens (the oracle decides), separators are
    removed, .5 and -.5 are words, 1e5 is an integer error, 0e5 is the hexadecimal integer 229,
-   0x1.8 is a float error''',
+   0x1.8 and 0o1.5 are float errors''',
 'C16_ex_real_shapes',
 '''  lex_string "1." = [(TReal "1.", 0, 2); (TEnd, 2, 2)] /\\
   lex_string "-1_0.5_0" = [(TReal "-10.50", 0, 8); (TEnd, 8, 8)] /\\
@@ -698,5 +728,6 @@ E('''the shapes: 1. and 1.5e3 and 1.2.3 are real tokens (the oracle decides), se
   lex_string "-.5" = [(TWord "-.5", 0, 3); (TEnd, 3, 3)] /\\
   lex_string "1e5" = [(TErr PInt 0 3, 0, 3)] /\\
   lex_string "0e5" = [(TLit (CInt 229), 0, 3); (TEnd, 3, 3)] /\\
-  lex_string "0x1.8" = [(TErr PFloat 0 5, 0, 5)]''',
+  lex_string "0x1.8" = [(TErr PFloat 0 5, 0, 5)] /\\
+  lex_string "0o1.5" = [(TErr PFloat 0 5, 0, 5)]''',
 'vm_compute. repeat split; reflexivity.')
